@@ -234,6 +234,22 @@ struct CmpDeclReloc { using trivially_relocatable = std::true_type; CmpDeclReloc
                       'SmallSet backed by std::set does not claim the trait'))
         items.append(('trconj|SmallSet|FlatSet|' + kd, 'amc::is_trivially_relocatable<%s >::value' % ss_flat,
                       'FlatSet-backed SmallSet<%s> claims the trait (both parts relocatable)' % kd))
+    # FlatSet-backed SmallSet: the conjunction of its inline vector and of the FlatSet it is given, whatever makes the latter
+    # non relocatable (comparator, underlying vector, element)
+    for cmp_ in ['std::less<int>', 'k::CmpNonReloc', 'k::CmpDeclReloc']:
+        for vec in ['amc::vector<int>', 'std::vector<int>', 'amc::SmallVector<int, 4>']:
+            alloc = 'std::allocator<int>' if vec.startswith('std::') else 'amc::allocator<int>'
+            fs = 'amc::FlatSet<int, %s, %s, %s >' % (cmp_, alloc, vec)
+            ss = 'amc::SmallSet<int, 4, %s, %s, %s >' % (cmp_, alloc, fs)
+            items.append(('trconj|SmallSet|FlatSet|%s|%s' % (cmp_, vec),
+                          'amc::is_trivially_relocatable<%s >::value == (amc::is_trivially_relocatable<%s >::value && oracle::reloc<%s >::value && %s)'
+                          % (ss, fs, cmp_, 'true' if not vec.startswith('std::') else 'oracle::reloc<std::vector<int> >::value'),
+                          'SmallSet over FlatSet<int, %s, %s> claims the trait exactly when that FlatSet (comparator and vector) is relocatable' % (cmp_, vec)))
+    for kd in ['k::NC0', 'k::NC1']:
+        fs = 'amc::FlatSet<%s, k::Less_%s, amc::allocator<%s >, amc::vector<%s > >' % (kd, kd[3:], kd, kd)
+        ss = 'amc::SmallSet<%s, 4, k::Less_%s, amc::allocator<%s >, %s >' % (kd, kd[3:], kd, fs)
+        items.append(('trconj|SmallSet|FlatSet|elem|' + kd, 'amc::is_trivially_relocatable<%s >::value == oracle::reloc<%s>::value' % (ss, kd),
+                      'FlatSet-backed SmallSet<%s> is relocatable exactly when the element (held inline) is' % kd))
     for key, cond, desc in items:
         w.add('TR-CONJ', key, cond, desc, minstd=17)
 
